@@ -1,4 +1,4 @@
-import Pcore.Proofs.LatSound
+import Pcore.Proofs.LatSoundAlias
 import Pcore.Proofs.LatTransAll
 set_option linter.unusedSimpArgs false
 set_option linter.unusedVariables false
@@ -34,8 +34,8 @@ theorem recv_sound (hl : ∀ s, (cfg.lower s).length = s.length) (n : Nat) (ih :
   | scalar => exact recv_scalar cfg n ih b v hw H h hi
   | scalarData => exact recv_scalarData cfg n ih b v hw H h hi
   | numeric => exact recv_numeric cfg b v h hi
-  | data => have := H.fa; unfold Ty.Frag at this; exact absurd this id
-  | richData => have := H.fa; unfold Ty.Frag at this; exact absurd this id
+  | data => exact recv_data cfg n ih b v hw H h hi
+  | richData => exact recv_rich cfg n ih b v hw H h hi
   | str => exact recv_str cfg b v h hi
   | bin => exact recv_bin cfg b v h hi
   | int r => exact recv_int cfg r b v h hi
@@ -79,8 +79,8 @@ theorem sound_all (hl : ∀ s, (cfg.lower s).length = s.length) : ∀ n, Sound c
       · exact recv_sound cfg hl n ih a b v hw H ha hb
     cases b with
     | unit => have := H.us; unfold Ty.US at this; exact absurd this id
-    | data => have := H.fb; unfold Ty.Frag at this; exact absurd this id
-    | richData => have := H.fb; unfold Ty.Frag at this; exact absurd this id
+    | data => exact sound_data_r cfg n ih a v hw H ha hb
+    | richData => exact sound_rich_r cfg n ih a v hw H ha hb
     | optional ot =>
       rw [asg_optional_r] at ha
       simp only [Bool.or_eq_true, Bool.and_eq_true] at ha
